@@ -30,6 +30,9 @@ func bndReport(r *Run, rule string, e *bndEngine, floor int) *bndResult {
 			construct += fmt.Sprintf(" #%d", n)
 		}
 		nOb++
+		if os.Getenv("SECSCHECK_BND_DEBUG") == "3" {
+			fmt.Printf("  obligation %v %s\n", res.proved[i], construct)
+		}
 		if res.proved[i] {
 			why := strings.Join(o.descs, "; ")
 			if res.failDesc[i] == "unreachable" {
